@@ -389,7 +389,7 @@ func C20(tier Tier) int {
 		}
 	}
 	// 5. merge: all ordered pairs (and triples in the thorough tier) against the reference merge
-	specs := accSpecs(tier.Thorough())
+	specs := accSpecs(true)
 	merge := make([]*Enum, NumWorkers())
 	for i := range merge {
 		merge[i] = NewEnum()
